@@ -363,6 +363,7 @@ func TestC13Reader(t *testing.T) {
 // Writer side.
 
 type writerCase struct {
+	Impl      string   `json:"implementation"`
 	Ops       []string `json:"ops"`
 	FailAfter int      `json:"fail_after"`
 	nontriv   bool
@@ -375,12 +376,26 @@ func runWriter(t *rapid.T, rec *ev.Recorder) {
 		failAfter = rapid.IntRange(0, 30000).Draw(t, "failAfter")
 		sc.FailWritesAfter(failAfter)
 	}
-	var conn network.Conn = standard.NewConnForVerif(sc, 4096)
-	wc := &writerCase{FailAfter: failAfter}
-	var expect []byte   // everything written so far
-	var keep [][]byte   // zero-copy buffers that must stay alive until flush
-	pos := 0            // position in the logical output stream (for content)
-	flushed := 0        // expect[:flushed] must have reached the peer
+	// two implementations of the same writer contract: the standard transport's connection and the
+	// generic network.NewWriter (used for hijacked/extended writers and by clients of other transports)
+	var conn network.Writer
+	stdConn := standard.NewConnForVerif(sc, 4096)
+	impl := "standard.Conn"
+	if rapid.IntRange(0, 2).Draw(t, "implementation") == 0 {
+		impl = "network.NewWriter"
+		conn = network.NewWriter(sc)
+	} else {
+		conn = stdConn
+	}
+	wc := &writerCase{FailAfter: failAfter, Impl: impl}
+	// a payload that is written piecewise as sub-slices of one buffer (each piece has spare capacity:
+	// the rest of the payload), with small separators in between, as a chunked body is
+	var payload, payloadOrig []byte
+	payloadOff := 0
+	var expect []byte // everything written so far
+	var keep [][]byte // zero-copy buffers that must stay alive until flush
+	pos := 0          // position in the logical output stream (for content)
+	flushed := 0      // expect[:flushed] must have reached the peer
 	sawMalloc, sawZC := false, false
 	salt := byte(rapid.IntRange(0, 255).Draw(t, "salt"))
 	steps := rapid.IntRange(1, maxSteps()).Draw(t, "steps")
@@ -465,11 +480,39 @@ func runWriter(t *rapid.T, rec *ev.Recorder) {
 				sawMalloc, sawZC = false, false
 				keep = nil
 			}
+		case 9: // the next piece of the shared payload buffer, zero-copy
+			if payload == nil || payloadOff >= len(payload) {
+				n := rapid.SampledFrom([]int{9000, 20000, 70000}).Draw(t, "payloadSize")
+				payloadOrig = content(n)
+				payload = append([]byte(nil), payloadOrig...)
+				payloadOff = 0
+				pos -= n // content positions are assigned when the pieces are written
+			}
+			k := rapid.SampledFrom([]int{1, 100, 4096, 4097, 8192, 8193}).Draw(t, "pieceSize")
+			if k > len(payload)-payloadOff {
+				k = len(payload) - payloadOff
+			}
+			desc = fmt.Sprintf("WriteBinary(payload[%d:%d] cap %d)", payloadOff, payloadOff+k, len(payload)-payloadOff)
+			m, err := conn.WriteBinary(payload[payloadOff : payloadOff+k])
+			if err != nil || m != k {
+				t.Fatalf("step %d %s: n=%d err=%v", step, desc, m, err)
+			}
+			expect = append(expect, payloadOrig[payloadOff:payloadOff+k]...)
+			payloadOff += k
+			pos += k
+			keep = append(keep, payload)
+			if k >= 4096 {
+				sawZC = true
+			}
 		case 8: // direct Write (flushes first)
+			if impl != "standard.Conn" {
+				desc = "noop"
+				break
+			}
 			k := rapid.SampledFrom([]int{1, 100, 4096, 9000}).Draw(t, "writeSize")
 			desc = fmt.Sprintf("Write(%d)", k)
 			c := content(k)
-			m, err := conn.Write(c)
+			m, err := stdConn.Write(c)
 			if err != nil {
 				if failAfter < 0 {
 					t.Fatalf("step %d %s: %v", step, desc, err)
@@ -485,8 +528,6 @@ func runWriter(t *rapid.T, rec *ev.Recorder) {
 				keep = nil
 				sawMalloc, sawZC = false, false
 			}
-		case 9: // ReadFrom-free no-op: check Len of reader side stays 0
-			desc = "noop"
 		}
 		wc.Ops = append(wc.Ops, desc)
 		verify(step, desc)
@@ -507,7 +548,7 @@ func runWriter(t *rapid.T, rec *ev.Recorder) {
 	if failAfter >= 0 {
 		cls = "writer-with-write-error"
 	}
-	rec.Case(wc.nontriv, ev.HashString(fmt.Sprint(failAfter), strings.Join(wc.Ops, ",")), cls)
+	rec.Case(wc.nontriv, ev.HashString(impl, fmt.Sprint(failAfter), strings.Join(wc.Ops, ",")), cls, "impl-"+impl)
 	if wc.nontriv && rec.WantSample() {
 		s := *wc
 		if len(s.Ops) > 40 {
